@@ -1501,6 +1501,8 @@ public:
 		return false;
 	}
 	constexpr bool isinf(int InfType = INF_TYPE_EITHER) const noexcept {
+		// a saturating encoding with supernormals has no infinity: its pattern is the value maxpos/maxneg (see maxpos())
+		if constexpr (isSaturating && hasSupernormals) return false;
 		// the bit pattern encoding of Inf is independent of gradual overflow (supernormal) configuration
 		bool isNegInf = false;
 		bool isPosInf = false;
